@@ -1,6 +1,7 @@
 import FlatModel.Props.C04
 #print axioms FC.issued_reads
 #print axioms FC.C04.string_reads_pushed
+#print axioms FC.C04.string_reads_pushed'
 #print axioms FC.C04.single_unsafe
 #print axioms FC.C04.string_write_paths_are_utf8
 #print axioms FC.C04.storage_is_private
